@@ -83,6 +83,61 @@ Proof.
 Qed.
 
 (* ------------------------------------------------------------------------------------------ *)
+(* the hide list opened once                                                                   *)
+
+Lemma existsb_ext_in {A} (f g : A -> bool) l :
+  (forall x, In x l -> f x = g x) -> existsb f l = existsb g l.
+Proof.
+  induction l as [|a l IH]; intros H; [reflexivity|]. simpl.
+  rewrite (H a (or_introl eq_refl)). rewrite IH; [reflexivity|]. intros x Hx. apply H. right. exact Hx.
+Qed.
+
+Lemma forallb_ext_in {A} (f g : A -> bool) l :
+  (forall x, In x l -> f x = g x) -> forallb f l = forallb g l.
+Proof.
+  induction l as [|a l IH]; intros H; [reflexivity|]. simpl.
+  rewrite (H a (or_introl eq_refl)). rewrite IH; [reflexivity|]. intros x Hx. apply H. right. exact Hx.
+Qed.
+
+Lemma filter_ext_in' {A} (f g : A -> bool) l :
+  (forall x, In x l -> f x = g x) -> filter f l = filter g l.
+Proof.
+  induction l as [|a l IH]; intros H; [reflexivity|]. simpl.
+  rewrite (H a (or_introl eq_refl)). rewrite IH; [reflexivity|]. intros x Hx. apply H. right. exact Hx.
+Qed.
+
+Lemma existsb_filter {A} (f g : A -> bool) l :
+  existsb g (filter f l) = existsb (fun x => f x && g x) l.
+Proof.
+  induction l as [|a l IH]; [reflexivity|]. simpl. destruct (f a); simpl; rewrite IH; reflexivity.
+Qed.
+
+Lemma existsb_andb_const {A} (c : bool) (f : A -> bool) l :
+  existsb (fun x => c && f x) l = c && existsb f l.
+Proof.
+  induction l as [|a l IH]; simpl; [rewrite andb_false_r; reflexivity|].
+  rewrite IH. destruct c; reflexivity.
+Qed.
+
+Lemma existsb_app' {A} (f : A -> bool) l1 l2 : existsb f (l1 ++ l2) = existsb f l1 || existsb f l2.
+Proof. induction l1 as [|a l IH]; [reflexivity|]. simpl. rewrite IH. apply orb_assoc. Qed.
+
+Lemma hidden_ids_spec fs hide id : mem_N (hidden_ids fs hide) id = hidden_id fs hide id.
+Proof.
+  unfold mem_N, hidden_ids, hidden_id. induction hide as [|h hide IH]; [reflexivity|].
+  cbn [flat_map existsb]. rewrite existsb_app', IH.
+  destruct (fs_open fs h) as [hn|]; [|reflexivity].
+  cbn [existsb]. rewrite orb_false_r, N.eqb_sym. reflexivity.
+Qed.
+
+Lemma visible_kids_eq fs hide kids :
+  visible_kids fs hide kids = filter (fun k => negb (is_hidden fs hide k)) kids.
+Proof.
+  unfold visible_kids. cbv zeta. apply filter_ext_in'. intros k _.
+  rewrite hidden_ids_spec. reflexivity.
+Qed.
+
+(* ------------------------------------------------------------------------------------------ *)
 (* what serve_file can serve                                                                   *)
 
 Lemma serve_file_serve fs hide pages prefix m req ae n enc :
@@ -244,7 +299,7 @@ Proof.
   destruct (ends_with_slash u) eqn:Eu; simpl negb; cbv iota.
   - destruct (existsb _ (children fs (jail req))); [left; reflexivity|].
     destruct archive as [|a ar].
-    + right; right; right; right; left. split; reflexivity.
+    + right; right; right; right; left. rewrite visible_kids_eq. split; reflexivity.
     + destruct (existsb (beq (a :: ar)) (b_types bc)).
       * right; right; right; right; right. split; [reflexivity|discriminate].
       * right; right; left. reflexivity.
@@ -291,19 +346,23 @@ Lemma archive_members_in fs hide d k :
   (forall a, In a fs -> n_dir a = true -> is_desc d (n_path a) = true ->
              is_desc (n_path a) (n_path k) = true -> is_hidden fs hide a = false).
 Proof.
-  unfold archive_members, descendants. intros H.
+  unfold archive_members, descendants. cbv zeta. intros H.
   apply filter_In in H as [H Ha]. apply filter_In in H as [Hin Hd].
-  unfold archived in Ha. apply negb_true_iff in Ha.
-  assert (Hcut : forall a, In a fs -> cut_by fs hide d k a = false).
-  { intros a Hain. destruct (cut_by fs hide d k a) eqn:E; [|reflexivity].
-    assert (X : existsb (cut_by fs hide d k) fs = true) by (apply existsb_exists; exists a; auto).
+  apply negb_true_iff in Ha.
+  assert (Hcut : forall a, In a fs -> is_hidden fs hide a = true -> is_desc d (n_path a) = true ->
+                           cut_by k a = false).
+  { intros a Hain Hh Hda. destruct (cut_by k a) eqn:E; [|reflexivity].
+    assert (X : existsb (cut_by k) (archive_cuts fs hide d) = true).
+    { apply existsb_exists. exists a. split; [|exact E]. unfold archive_cuts. cbv zeta.
+      apply filter_In. split; [exact Hain|]. rewrite hidden_ids_spec. fold (is_hidden fs hide a).
+      rewrite Hh, Hda. reflexivity. }
     congruence. }
   split; [exact Hin|]. split; [exact Hd|]. split.
-  - pose proof (Hcut k Hin) as C. unfold cut_by in C. rewrite Hd, beq_refl in C.
-    cbn [orb] in C. rewrite !andb_true_r in C. exact C.
-  - intros a Hain Hdir Hda Hak. pose proof (Hcut a Hain) as C. unfold cut_by in C.
-    rewrite Hda, Hdir, Hak in C. cbn [andb] in C. rewrite orb_true_r in C.
-    rewrite !andb_true_r in C. exact C.
+  - destruct (is_hidden fs hide k) eqn:Hh; [|reflexivity].
+    pose proof (Hcut k Hin Hh Hd) as C. unfold cut_by in C. rewrite beq_refl in C. discriminate.
+  - intros a Hain Hdir Hda Hak. destruct (is_hidden fs hide a) eqn:Hh; [|reflexivity].
+    pose proof (Hcut a Hain Hh Hda) as C. unfold cut_by in C.
+    rewrite Hdir, Hak in C. rewrite orb_true_r in C. discriminate.
 Qed.
 
 Lemma archive_sound fs hide pages prefix confs m req ae archive ms :
@@ -775,4 +834,59 @@ Proof.
   - intros k Hk.
     destruct (archive_inside_root _ _ _ _ _ _ _ _ _ _ E k Hk) as (H1 & H2 & H3).
     destruct (archive_never_hidden _ _ _ _ _ _ _ _ _ _ E k Hk) as (H4 & _). auto.
+Qed.
+
+(* ------------------------------------------------------------------------------------------ *)
+(* the executable spec as evaluated (per-site data computed once) is the reference spec         *)
+
+Lemma mem_b_app l1 l2 p : mem_b (l1 ++ l2) p = mem_b l1 p || mem_b l2 p.
+Proof. apply existsb_app'. Qed.
+
+Lemma mem_b_flat_map {A} (f : A -> list bytes) l p :
+  mem_b (flat_map f l) p = existsb (fun e => mem_b (f e) p) l.
+Proof.
+  induction l as [|a l IH]; [reflexivity|]. cbn [flat_map existsb]. rewrite mem_b_app, IH. reflexivity.
+Qed.
+
+Lemma allowed_static_set_spec pages req ae p :
+  mem_b (allowed_static_set pages req ae) p = allowed_static pages req ae p.
+Proof.
+  unfold allowed_static_set, allowed_static. cbv zeta.
+  rewrite mem_b_app, mem_b_flat_map. f_equal.
+  apply existsb_ext_in. intros e _. destruct (accepts ae (fst e)); reflexivity.
+Qed.
+
+Lemma spec_ok_eq s r o : spec_ok s r o = spec_ok_ref s r o.
+Proof.
+  unfold spec_ok, spec_ok_ref. cbv zeta.
+  set (fs := s_fs s). set (hide := s_hide s). set (c := jail (q_path r)).
+  assert (Hok : forall (w1 w2 : bytes -> bool), (forall p, w1 p = w2 p) -> forall id,
+     negb (mem_N (hidden_ids fs hide) id) &&
+     existsb (fun n => if (n_id n =? id) && negb (n_dir n) then w1 (n_path n) else false) fs =
+     existsb (fun n => (n_id n =? id) && negb (n_dir n) && negb (hidden_id fs hide id) && w2 (n_path n)) fs).
+  { intros w1 w2 Hw id. rewrite hidden_ids_spec. rewrite <- existsb_andb_const.
+    apply existsb_ext_in. intros n _. rewrite Hw.
+    destruct (n_id n =? id), (n_dir n), (hidden_id fs hide id), (w2 (n_path n)); reflexivity. }
+  assert (Hvis : forall p,
+     match fs_at fs p with Some n => negb (mem_N (hidden_ids fs hide) (n_id n)) | None => false end =
+     match fs_at fs p with Some n => negb (hidden_id fs hide (n_id n)) | None => false end).
+  { intros p. destruct (fs_at fs p); [rewrite hidden_ids_spec|]; reflexivity. }
+  assert (Hbel : forall p,
+     existsb (fun a => is_desc (n_path a) p)
+             (filter (fun a => n_dir a && mem_N (hidden_ids fs hide) (n_id a) && is_desc c (n_path a)) fs) =
+     existsb (fun a => n_dir a && hidden_id fs hide (n_id a) && is_desc c (n_path a) && is_desc (n_path a) p) fs).
+  { intros p. rewrite existsb_filter. apply existsb_ext_in. intros a _. rewrite hidden_ids_spec. reflexivity. }
+  pose (w1 := fun p => is_desc c p && negb (existsb (fun a => is_desc (n_path a) p)
+     (filter (fun a => n_dir a && mem_N (hidden_ids fs hide) (n_id a) && is_desc c (n_path a)) fs))).
+  pose (w2 := fun p => is_desc c p && negb (existsb (fun a => n_dir a && hidden_id fs hide (n_id a) &&
+     is_desc c (n_path a) && is_desc (n_path a) p) fs)).
+  assert (Hw : forall p, w1 p = w2 p) by (intros p; unfold w1, w2; rewrite Hbel; reflexivity).
+  f_equal. destruct (o_kind o) as [|k].
+  - f_equal. apply forallb_ext_in. intros id _. apply Hok. intros p. apply allowed_static_set_spec.
+  - destruct k as [k|k|].
+    + f_equal; [apply forallb_ext_in; intros id _; exact (Hok w1 w2 Hw id)|].
+      apply forallb_ext_in. intros nm _. rewrite Hvis, Hbel. reflexivity.
+    + f_equal; [apply forallb_ext_in; intros id _; exact (Hok w1 w2 Hw id)|].
+      apply forallb_ext_in. intros nm _. rewrite Hvis, Hbel. reflexivity.
+    + f_equal. apply forallb_ext_in. intros nm _. apply Hvis.
 Qed.
